@@ -134,6 +134,13 @@ type FuncContract struct {
 	Ghost    map[string]string
 	Pure     bool // function has no side effects (modifies nothing)
 	Unroll   int
+	Witness  []*WitnessVar // existential witnesses of the postconditions, given as expressions over locals at return
+}
+
+type WitnessVar struct {
+	Name string
+	Type string
+	Expr SExpr
 }
 
 type PureFunc struct {
@@ -175,7 +182,13 @@ type DataInv struct { // data invariant over package-level constants/vars evalua
 	Mode  string
 }
 
+type GhostVar struct {
+	Name string
+	Type string
+}
+
 type ContractFile struct {
+	Ghosts []*GhostVar
 	Pkg    string
 	File   string
 	Funcs  []*FuncContract
@@ -740,6 +753,13 @@ func parseContractLines(pkg, file string, lines []rawLine) (*ContractFile, error
 			pf.Line = l.line
 			cf.Pures = append(cf.Pures, pf)
 			cur = nil
+		case "ghost":
+			f := strings.Fields(rest)
+			if len(f) != 2 || !strings.HasPrefix(f[0], "$") {
+				return nil, perr(l, fmt.Errorf("ghost $name type"))
+			}
+			cf.Ghosts = append(cf.Ghosts, &GhostVar{f[0], f[1]})
+			cur = nil
 		case "axiom", "lemma", "datainv":
 			i := strings.Index(rest, ":")
 			if i < 0 {
@@ -809,6 +829,18 @@ func parseContractLines(pkg, file string, lines []rawLine) (*ContractFile, error
 						cur.Modifies = append(cur.Modifies, e)
 					}
 				}
+			case "witness":
+				// witness q int = <expr over locals at the return point>
+				i := strings.Index(rest, "=")
+				f := strings.Fields(rest[:max0(i)])
+				if i < 0 || len(f) != 2 {
+					return nil, perr(l, fmt.Errorf("witness <name> <type> = <expr>"))
+				}
+				e, err := parseSpecExpr(strings.TrimSpace(rest[i+1:]))
+				if err != nil {
+					return nil, perr(l, err)
+				}
+				cur.Witness = append(cur.Witness, &WitnessVar{f[0], f[1], e})
 			case "opaque":
 				cur.Opaque = append(cur.Opaque, strings.Fields(strings.ReplaceAll(rest, ",", " "))...)
 			case "unroll":
@@ -998,4 +1030,11 @@ func walkSpec(e SExpr, f func(SExpr)) {
 		walkSpec(x.A, f)
 		walkSpec(x.B, f)
 	}
+}
+
+func max0(i int) int {
+	if i < 0 {
+		return 0
+	}
+	return i
 }
